@@ -344,9 +344,9 @@ def c05_struct():
         sh = max(2, w // 4)
         if not sg:  # an arithmetic right shift of a negative value never reaches zero
             out.append(f"{{ {t} q; RxV = 0; for (q = {src(w, 'u')}; q; q >>= {sh}) {{ RxV = RxV + 1; }} }}")
-            out.append(f"{{ {t} q; RxV = 0; for (q = {src(w, 'u')}; q != 0; q = q >> {sh}) {{ RxV = RxV + 2; }} RyV = q; }}")
+            out.append(f"{{ {t} q; RxV = 0; for (q = {src(w, 'u')}; q != 0; q = q >> {sh}) {{ RxV = RxV + 2; }} RyV = RyV + q; }}")
         out.append(f"{{ {t} q; RxV = 0; for (q = {src(w, 'u')}; q; q <<= {sh}) {{ RxV = RxV + 1; }} }}")
-        out.append(f"{{ {decl(t, w, 'q', 'u')} int m; RxV = 0; for (m = 0; q; m++) {{ q = q << {sh}; RxV = RxV + 1; }} RyV = m; }}")
+        out.append(f"{{ {decl(t, w, 'q', 'u')} int m; RxV = 0; for (m = 0; q; m++) {{ q = q << {sh}; RxV = RxV + 1; }} RyV = RyV + m; }}")
     out.append("{ if (RssV) { RxV = 1; } else { RxV = 2; } }")
     out.append("{ if (RssV & 0xffffffff00000000ULL) { RxV = 1; } else { RxV = 2; } }")
     out.append("{ RxV = (RssV << 32) ? 1 : 2; }")
@@ -800,6 +800,13 @@ def c17(tier):
     for l in look:
         out.append(f"{{ int32_t {l} = RtV; RxV = {l} + 1; }}")
         out.append(f"{{ RxV = {l}; }}")
+    # register-shaped identifiers with two DIFFERENT access letters are plain identifiers (pairs repeat ONE letter)
+    lets = "stuvdexy"
+    for cls in "RPCMNV":
+        for a_, b_ in itertools.permutations(lets, 2):
+            if (ord(a_) * 7 + ord(b_) + ord(cls)) % (3 if cls == "R" else 11) == 0:
+                for suf in "VN":
+                    out.append(f"{{ int32_t {cls}{a_}{b_}{suf} = RwV; RzV = RzV + {cls}{a_}{b_}{suf}; }}")
     out += ["{ RxV = RsV+RtV; }", "{ RxV=RsV-RtV; }", "{ RxV = RsV+siV; }", "{ RxV = RsV +uiV-RtV; }", "{ RxV = RsN+PtV; }",
             "{ RxV = P0+P1; }", "{ RxV = HEX_REG_ALIAS_SP+4; }", "{ RxV=RsV&RtV; }", "{ RxV=RsV&&RtV; }", "{ RxV=RsV&~RtV; }",
             "{ RxV=RsV<<RtV; }", "{ RxV=RsV<RtV; }", "{ RxV=RsV<=RtV; }", "{ RxV=RsV<<1<=RtV; }", "{ RxV=RsV>>1>=RtV; }",
